@@ -8,7 +8,7 @@ from .common import exec_case, rng_for, crash_sig, chunks, fmt_outcome, same_out
 
 RULE = ("(a) every receiver-style built-in (size, contains, string, double, int, uint, startsWith, endsWith, matches, "
         "the ten timestamp accessors) x receivers and arguments from the hostile value pool, as x.f(args) and f(x, args): "
-        "equal value or same error class; (b) a catalogue of host functions of arity 0-9 over every supported parameter "
+        "equal value or same error class, also for receivers that contain the function's own name as key / element / text; (b) a catalogue of host functions of arity 0-9 over every supported parameter "
         "type and extractor (This<T>, This<Option<T>>, This<Value>, Arguments, Identifier, Expression, with and without "
         "&FunctionContext) called with 0..arity+2 arguments of matching and mismatching kinds in both styles: outcome "
         "and the typed argument log must equal the signature model (error and no invocation on a missing / mistyped "
